@@ -401,51 +401,52 @@ def bindKw (sig : Sig) : Dict → Except Err Dict
 
 def par (kw : Dict) (k : Nat) : Val := (dget kw k).getD .none
 
-/-- `Effect.__init__`: returns the values of the instance attributes, keyed by parameter name
-(`k` = armour/attack amount width, `emptyStr` = id of `""`) -/
-def effectInit (sig : Sig) (N : AttrNames) (f : AAFamily) (k emptyStr : Nat) (kw0 : Dict) : Except Err (Src × Dict) :=
-  match bindKw sig kw0 with
-  | .error e => .error e
-  | .ok kw =>
-  if !(sig.intRequired.all (fun n => isInt (par kw n))) then .error .typeError else
+/-- the armour/attack part of `Effect.__init__` (and of the `quantity` setter it ends with):
+`(class, amount, quantity, variable)` after the source-specific handling -/
+def aaStep (src : Src) (k emptyStr : Nat) (cls0 qty0 q0 var0 vref : Val) : Except Err (Val × Val × Val × Val) :=
+  match src with
+  | .variable =>
+    if !vref.isNone && var0.isNone && cls0.isNone then
+      match splitVal k vref with
+      | .ok (c, v) => .ok (c, qty0, q0, v)
+      | .error e => .error e
+    else .ok (if truthyE emptyStr cls0 then cls0 else .int 0, qty0, q0, var0)
+  | .quantity =>
+    if !q0.isNone && cls0.isNone && qty0.isNone then
+      match splitVal k q0 with
+      | .ok (c, a) => .ok (c, a, .none, var0)
+      | .error e => .error e
+    else if valid cls0 || valid qty0 then .ok (cls0, qty0, .none, var0)
+    else
+      -- "handled by the quantity property": `self.quantity = quantity` runs last and, unless the value is
+      -- `None` or `[]`, splits it into class and amount
+      match q0 with
+      | .none => .ok (cls0, qty0, q0, var0)
+      | .list [] => .ok (cls0, qty0, q0, var0)
+      | _ => match splitVal k q0 with
+        | .ok (c, a) => .ok (c, a, q0, var0)
+        | .error e => .error e
+  | .none => .ok (.none, .none, q0, var0)
+
+/-- both axes of `validate_coords` -/
+def coords (kw : Dict) (N : AttrNames) : Except Err ((Val × Val) × (Val × Val)) :=
+  match coordAxis (par kw N.x1) (par kw N.x2), coordAxis (par kw N.y1) (par kw N.y2) with
+  | .ok a, .ok b => .ok (a, b)
+  | .error e, _ => .error e
+  | _, .error e => .error e
+
+/-- `Effect.__init__` after keyword binding and the int check -/
+def effectBody (sig : Sig) (N : AttrNames) (f : AAFamily) (k emptyStr : Nat) (kw : Dict) : Except Err (Src × Dict) :=
   let sel := match par kw N.selectedIds with | .none => Val.list [] | .int i => .list [i] | v => v
   let src := source f (par kw sig.typeKey) (par kw N.objectAttributes)
-  let cls0 := par kw N.aaClass
-  let qty0 := par kw N.aaQuantity
-  let q0 := par kw N.quantity
-  let var0 := par kw N.varAttr
   let vref := par kw N.variableRef
-  -- armour/attack
-  let aa : Except Err (Val × Val × Val × Val) :=      -- (class, amount, quantity, variable)
-    match src with
-    | .variable =>
-      if !vref.isNone && var0.isNone && cls0.isNone then
-        match splitVal k vref with
-        | .ok (c, v) => .ok (c, qty0, q0, v)
-        | .error e => .error e
-      else .ok (if truthyE emptyStr cls0 then cls0 else .int 0, qty0, q0, var0)
-    | .quantity =>
-      if !q0.isNone && cls0.isNone && qty0.isNone then
-        match splitVal k q0 with
-        | .ok (c, a) => .ok (c, a, .none, var0)
-        | .error e => .error e
-      else if valid cls0 || valid qty0 then .ok (cls0, qty0, .none, var0)
-      else
-        -- "handled by the quantity property": `self.quantity = quantity` runs last and, unless the value is
-        -- `None` or `[]`, splits it into class and amount
-        match q0 with
-        | .none => .ok (cls0, qty0, q0, var0)
-        | .list [] => .ok (cls0, qty0, q0, var0)
-        | _ => match splitVal k q0 with
-          | .ok (c, a) => .ok (c, a, q0, var0)
-          | .error e => .error e
-    | .none => .ok (.none, .none, q0, var0)
-  match aa with
+  match aaStep src k emptyStr (par kw N.aaClass) (par kw N.aaQuantity) (par kw N.quantity) (par kw N.varAttr) vref with
   | .error e => .error e
   | .ok (cls, qty, q, var1) =>
   let var := if var1.isNone then (if !vref.isNone then vref else .int (-1)) else var1
-  match coordAxis (par kw N.x1) (par kw N.x2), coordAxis (par kw N.y1) (par kw N.y2) with
-  | .ok (x1, x2), .ok (y1, y2) =>
+  match coords kw N with
+  | .error e => .error e
+  | .ok ((x1, x2), (y1, y2)) =>
     let loc := if valid (par kw N.legacyLoc) then par kw N.legacyLoc else par kw N.locRef
     let final := fun (n : Nat) (v : Val) =>
       bif Nat.beq n N.selectedIds then sel else bif Nat.beq n N.aaClass then cls else bif Nat.beq n N.aaQuantity then qty
@@ -453,8 +454,15 @@ def effectInit (sig : Sig) (N : AttrNames) (f : AAFamily) (k emptyStr : Nat) (kw
       else bif Nat.beq n N.x1 then x1 else bif Nat.beq n N.x2 then x2 else bif Nat.beq n N.y1 then y1
       else bif Nat.beq n N.y2 then y2 else bif Nat.beq n N.locRef then loc else v
     .ok (src, kw.map (fun kv => (kv.1, final kv.1 kv.2)))
-  | .error e, _ => .error e
-  | _, .error e => .error e
+
+/-- `Effect.__init__`: returns the values of the instance attributes, keyed by parameter name
+(`k` = armour/attack amount width, `emptyStr` = id of `""`) -/
+def effectInit (sig : Sig) (N : AttrNames) (f : AAFamily) (k emptyStr : Nat) (kw0 : Dict) : Except Err (Src × Dict) :=
+  match bindKw sig kw0 with
+  | .error e => .error e
+  | .ok kw =>
+    if !(sig.intRequired.all (fun n => isInt (par kw n))) then .error .typeError
+    else effectBody sig N f k emptyStr kw
 
 /-- the publicly readable attribute map of a fresh effect, restricted to the keys it was built from:
 `item_id` is a derived read-only property, `quantity` of a quantity-source armour/attack effect is the packed pair
@@ -468,14 +476,13 @@ def condInit (sig : Sig) (N : AttrNames) (kw0 : Dict) : Except Err Dict :=
   match bindKw sig kw0 with
   | .error e => .error e
   | .ok kw =>
-  if !(sig.intRequired.all (fun n => isInt (par kw n))) then .error .typeError else
-  match coordAxis (par kw N.x1) (par kw N.x2), coordAxis (par kw N.y1) (par kw N.y2) with
-  | .ok (x1, x2), .ok (y1, y2) =>
-    .ok (kw.map (fun kv => (kv.1,
-      bif Nat.beq kv.1 N.x1 then x1 else bif Nat.beq kv.1 N.x2 then x2 else bif Nat.beq kv.1 N.y1 then y1
-      else bif Nat.beq kv.1 N.y2 then y2 else kv.2)))
-  | .error e, _ => .error e
-  | _, .error e => .error e
+    if !(sig.intRequired.all (fun n => isInt (par kw n))) then .error .typeError else
+    match coords kw N with
+    | .error e => .error e
+    | .ok ((x1, x2), (y1, y2)) =>
+      .ok (kw.map (fun kv => (kv.1,
+        bif Nat.beq kv.1 N.x1 then x1 else bif Nat.beq kv.1 N.x2 then x2 else bif Nat.beq kv.1 N.y1 then y1
+        else bif Nat.beq kv.1 N.y2 then y2 else kv.2)))
 
 /-! ## The trigger: component list and display order -/
 
@@ -615,13 +622,15 @@ def dflt (d0 d : Dict) (k : Nat) : Val :=
   | none => (dget d0 k).getD .none
 
 /-- the merged defaults of a type are acceptable to the constructor: the ids that must be ints are ints, the area is
-made of ints, and (effects) the armour/attack class default is not `None`, so that nothing is split or raises
+made of ints, and (effects) the armour/attack class default is not `None` and the quantity default is an int, `None` or
+`[]`, so that nothing non-numeric is split
 (`creatable_sound`: then creating the type with no arguments succeeds) -/
 def creatable (c : Ctx) (d0 d : Dict) : Bool :=
   c.sig.intRequired.all (fun n => isInt (dflt d0 d n)) &&
   isInt (dflt d0 d c.names.x1) && isInt (dflt d0 d c.names.x2) &&
   isInt (dflt d0 d c.names.y1) && isInt (dflt d0 d c.names.y2) &&
-  (!c.isEffect || !(dflt d0 d c.names.aaClass).isNone)
+  (!c.isEffect || (!(dflt d0 d c.names.aaClass).isNone &&
+    (match dflt d0 d c.names.quantity with | .int _ => true | .none => true | .list [] => true | _ => false)))
 
 /-- one entry of effects.json / conditions.json (fast path: its key list is literally that of type 0) -/
 def entryOK (c : Ctx) (keys0 : List Nat) (d0 : Dict) (e : TypeEntry) : Bool :=
